@@ -106,15 +106,6 @@ Definition separate_ok (wf : workflow) (tab : list sentry) (nd : node) : bool :=
 Definition sharing_ok (wf : workflow) (tab : list sentry) (nd : node) : bool :=
   separate_ok wf tab nd
   || match ups tab (n_fields nd) with [x; y] => relays wf tab x y || relays wf tab y x | _ => false end.
-(* a node with an own splitter does not combine every axis it inherits *)
-Definition comb_all_prev_ok (tab : list sentry) (nd : node) : bool :=
-  negb (negb (is_nil (ups tab (n_fields nd))) && negb (is_nil (n_split nd))
-        && forallb (fun k => memk k (n_comb nd)) (up_axes tab (n_fields nd))).
-(* a combining node that runs zero times has no group to report either *)
-Definition empty_comb_ok (wf : workflow) (e : sentry) (nd : node) : bool :=
-  negb (negb (is_nil (n_comb nd)) && is_nil (box wf (s_axes e)) && negb (is_nil (s_faxes e))
-        && negb (is_nil (box wf (s_faxes e)))).
-
 (* well-formed description: inputs refer to earlier nodes, the splitter is a duplicate-free list of
    exactly the fields that carry split lists, the combiner a duplicate-free list of axes of the node *)
 Definition node_wf (n : nat) (e : sentry) (nd : node) : bool :=
@@ -134,11 +125,9 @@ Definition on_nodes (wf : workflow) (p : nat -> sentry -> node -> bool) : bool :
 Definition wf_ok (wf : workflow) : bool := on_nodes wf node_wf.
 Definition separate_class (wf : workflow) : bool := on_nodes wf (fun _ _ nd => separate_ok wf (spec_table wf) nd).
 Definition share_class (wf : workflow) : bool := on_nodes wf (fun _ _ nd => sharing_ok wf (spec_table wf) nd).
-Definition comb_all_prev_class (wf : workflow) : bool := on_nodes wf (fun _ _ nd => comb_all_prev_ok (spec_table wf) nd).
-Definition empty_comb_class (wf : workflow) : bool := on_nodes wf (fun _ e nd => empty_comb_ok wf e nd).
 (* the class of C03_partial *)
 Definition c03_domain (wf : workflow) : bool :=
-  wf_ok wf && separate_class wf && comb_all_prev_class wf && empty_comb_class wf.
+  wf_ok wf && separate_class wf.
 (* the same plus the relay pattern: outside it the unchanged code is known to misbehave (F03) *)
 Definition c03_aligned (wf : workflow) : bool :=
-  wf_ok wf && share_class wf && comb_all_prev_class wf && empty_comb_class wf.
+  wf_ok wf && share_class wf.
